@@ -322,7 +322,7 @@ pub fn seq_oracle(case: &SeqCase) -> Verdict {
 
 fn write_strategy() -> impl Strategy<Value = WriteCase> {
     let k = prop_oneof![4 => 0usize..12, 2 => 12usize..100, 2 => 240usize..=255, 1 => 256usize..300];
-    let lens = prop::collection::vec((any::<u16>(), prop_oneof![Just(0u32), Just(1), Just(254), Just(255), Just(256), Just(257), Just(1000), Just(65535), 2u32..40]), 0..4);
+    let lens = prop::collection::vec((any::<u16>(), prop_oneof![Just(0u32), Just(1), Just(254), Just(255), Just(256), Just(257), Just(1000), Just(65535), Just(65536), Just(70000), 2u32..40]), 0..4);
     (k, lens, any::<u8>(), arb_value(GenCfg { depth: 2, size: 6, heavy: false, ..GenCfg::std() }), any::<bool>(), arb_choices(6))
         .prop_map(|(k, lens, shape, extra, with_payload, repr)| WriteCase { k, lens, shape, extra, with_payload, repr })
 }
